@@ -2,6 +2,7 @@ package rpc
 
 import (
 	"context"
+	"sync"
 
 	"capnproto.org/go/capnp/v3"
 	rpccp "capnproto.org/go/capnp/v3/std/capnp/rpc"
@@ -173,6 +174,9 @@ type embargo struct {
 	c      *capnp.Client
 	p      *capnp.ClientPromise
 	lifted chan struct{}
+
+	mu       sync.Mutex
+	shutdown bool // Shutdown has been called: c is (about to be) released
 }
 
 // embargo creates a new embargoed client, stealing the reference.
@@ -206,7 +210,19 @@ func (c *Conn) findEmbargo(id embargoID) *embargo {
 // lift disembargoes the client.  It must be called only once.
 func (e *embargo) lift() {
 	close(e.lifted)
-	e.p.Fulfill(e.c)
+	// The embargoed client may have been dropped by the application
+	// before the disembargo came back: e.c is then released and the
+	// promise (which nobody refers to any more) resolves to nothing.
+	// Otherwise resolve with a reference of our own, so that a concurrent
+	// Shutdown cannot release the client under Fulfill.
+	e.mu.Lock()
+	var c *capnp.Client
+	if !e.shutdown {
+		c = e.c.AddRef()
+	}
+	e.mu.Unlock()
+	e.p.Fulfill(c)
+	c.Release()
 }
 
 func (e *embargo) Send(ctx context.Context, s capnp.Send) (*capnp.Answer, capnp.ReleaseFunc) {
@@ -233,6 +249,9 @@ func (e *embargo) Brand() capnp.Brand {
 }
 
 func (e *embargo) Shutdown() {
+	e.mu.Lock()
+	e.shutdown = true
+	e.mu.Unlock()
 	e.c.Release()
 }
 
